@@ -192,7 +192,23 @@ def startDoc (f : String) : Option Doc :=
     let d ← decDoc (d.replace "=" ":")
     let kids := docOfParas (d.map paraOfPairs)
     pure { kids := kids, handles := (paraPositions kids).map some }
+  | "b" :: ts => do
+    -- `Deb822::from_iter` of `Paragraph::from_str(t)`: the first paragraph of each text
+    let ps ← ts.mapM fun t => do
+      let s ← decStr t
+      ((parse s).tree.children.filter isParaNode).head?
+    let kids := docOfParas ps
+    pure { kids := kids, handles := (paraPositions kids).map some }
   | _ => none
+
+/-- `Paragraph::from_str` fails on one of the texts of a `b.` start -/
+def startUnreadable (f : String) : Bool :=
+  match f.splitOn "." with
+  | "b" :: ts => ts.any fun t =>
+    match decStr t with
+    | none => false
+    | some s => !(parse s).errors.isEmpty || ((parse s).tree.children.filter isParaNode).isEmpty
+  | _ => false
 
 def histStep (d : Doc) (op : String) : Option (Doc × String) :=
   -- an operation through the handle of a paragraph that was removed from the document is skipped
@@ -347,6 +363,7 @@ def handle (op : String) (args : List String) : Option String :=
         | some t2 => s!"{showWrapped (some t1)} 2:{encStr t2.text}"
     pure (if wrapHashLine level fmt root then obs ++ "\t!F-C07-10" else obs)
   | "deb.hist", [start, ops] => do
+    if startUnreadable start then pure "START-UNREADABLE" else
     let d ← startDoc start
     let (outs, dEnd) ← histRun d (if ops.isEmpty then [] else ops.splitOn ",")
     pure s!"{encStr d.root.text}|{showHandles d} {" ".intercalate outs} {dump dEnd.root}"
